@@ -91,6 +91,15 @@ def generate(rng, tier):
             sub = late_nested.pop()
             ops.append(scen.cmd("create", scen.root_arg(sub), *gen.fmt_args(gen.pick_formats(rng, 1, 2))))
             ops.append(scen.gen_advance(rng))
+    if nested and rng.random() < 0.3:
+        # a partial generation for a file inside a nested history (the root only gets references), then the root again:
+        # the stored patterns have to survive a generation without records
+        inner = [f for f in gen.tree_files(tree) if any(f.startswith(n + "/") for n in nested)]
+        if inner:
+            ops.append(scen.cmd("create", "@R", *gen.fmt_args(fmt0), "-sf", "@R/" + rng.choice(inner)))
+            ops.append(scen.gen_advance(rng))
+            ops.append(scen.cmd("create", "@R", *gen.fmt_args(fmt0)))
+            ops.append(scen.gen_advance(rng))
     ops.append({"op": "ignored_fault_phase", "seed": rng.getrandbits(32), "n": rng.randint(1, 3)})
     return {"world": env, "ops": ops}
 
@@ -299,6 +308,26 @@ def _fault_phase(ctx, w, op):
                 ctx.violate({"kind": "ignored-path-reported", "clause": "b", "cmd": name},
                             f"{name}: output reports ignored {rp!r}: {_mentions(text, rp)[:200]}")
                 return
+    # control: a recorded, non-ignored file disappears -> it (and nothing that is ignored) is reported missing
+    from .c03 import parse_reports
+
+    recorded = set()
+    for num, _, m in hv.generations:
+        recorded |= {r["path"] for r in m["files"]}
+    alive = sorted(p_ for p_ in recorded if os.path.isfile(os.path.join(w.root, p_)) and not any(
+        ig(os.path.join(w.root, *p_.split("/")[: i + 1])) for i in range(len(p_.split("/")))))
+    if alive and base[1].outcome == ("exit", 0):
+        victim = alive[core.h64(op["seed"], "victim") % len(alive)]
+        if w.apply_env({"op": "remove", "path": victim, "fault": "remove_recorded_file_control"}):
+            for argv in (["verify", w.root], ["diff", w.root]):
+                r = w.run_cmd(argv)
+                ctx.evaluations += 1
+                _, missing, _ = parse_reports(r.stderr + "\n" + r.stdout)
+                bad = sorted(m_ for m_ in missing if m_.strip() != victim.strip())
+                if bad:
+                    ctx.violate({"kind": "ignored-path-reported", "clause": "b", "cmd": argv[0], "cause": "as-missing"},
+                                f"{argv[0]} after removing {victim!r}: also reports {bad[:4]} as missing; patterns {pats}")
+                    return
 
 
 def _mentions(text, rp):
